@@ -94,14 +94,14 @@ Theorem c10_blocked_never_admitted : forall sites h,
      (forall addrs, outbound sites m p addrs = [PvPeerDial p false]) /\
      (forall oa, intercept_accept m oa = true ->
         inbound sites m p oa = [PvAccept true; PvHandshake; PvSecured true p false; PvClosed]) /\
-     (forall oa, ~ In PvAdmitted (inbound sites m p oa))) /\
+     (forall oa, ~ In PvConnected (inbound sites m p oa))) /\
   (forall a b, model_has m (tid (RAddr a)) -> norm_ip b = norm_ip a ->
      (forall p addrs j, nth_error addrs j = Some (Some b) -> ~ In (PvTransportDial j) (outbound sites m p addrs)) /\
      (forall p, inbound sites m p (Some b) = [PvAccept false; PvClosed])) /\
   (forall s b, wf_snet s -> snet_key s <> None -> wf_ip b -> model_has m (tid (RSubnet s)) -> contains s b = true ->
      (forall p addrs j, nth_error addrs j = Some (Some b) -> ~ In (PvTransportDial j) (outbound sites m p addrs)) /\
      (forall p, inbound sites m p (Some b) = [PvAccept false; PvClosed])) /\
-  (forall p addrs, In PvAdmitted (outbound sites m p addrs) ->
+  (forall p addrs, In PvConnected (outbound sites m p addrs) ->
      exists k, In (PvTransportDial k) (outbound sites m p addrs)).
 Proof. exact blocked_never_admitted_l. Qed.
 Print Assumptions c10_blocked_never_admitted.
